@@ -123,6 +123,10 @@ MUTANTS = [
     ('algebra.py', "sorted(self.canon2bin.items(), key=lambda x: x[1])}", "sorted(self.canon2bin.items(), key=lambda x: x[1], reverse=True)}", 'custombasis', 'sorted: ascending'),
     ('algebra.py', "self.bin2canon = {J: eJ for eJ, J in sorted(", "self.bin2canon = {J: eJ for J, eJ in sorted(", 'custombasis', 'P3'),
     ('algebra.py', "            assert all(eJ[0] == 'e' for eJ in self.basis)\n", "", 'custombasis', 'pass'),                    # an assert only rejects inputs
+    ('graph.py', "return walker(encode(self._get_pre_subjects(), root=True))", "return walker(encode(self.pre_subjects, root=True))", 'graph', 'get_subjects encodes the result of a new evaluation'),
+    ('graph.py', "self.inplacereplace(self.pre_subjects, zip(self.draggable_points_idxs, change['new']))", "self.inplacereplace(self.pre_subjects, zip(self.draggable_points_idxs, change['old']))", 'graph', 'drag: the reported points are written'),
+    ('graph.py', "        self.subjects = self.get_subjects().copy()", "        self.subjects = list(self.get_subjects())", 'graph', 'pass'),
+    ('graph.py', "return {k: i for i, k in enumerate(self.algebra.canon2bin.values())}", "return {k: i for i, k in enumerate(self.algebra.canon2bin.values(), 1)}", 'graph', 'key2idx'),
 ]
 
 
@@ -177,6 +181,9 @@ def build_group(H, group):
         U.vc_compositions(H)
     elif group == 'custombasis':
         A.vc_custom_basis(H)
+    elif group == 'graph':
+        from contracts import misc_c as MC
+        MC.vc_graph_refresh(H); MC.vc_graph_derived(H); MC.vc_inplacereplace(H)
     elif group == 'poly':
         P.vc_compare(H); P.vc_poly_add(H); P.vc_rational(H); P.vc_zero_tests(H); P.vc_poly_mul(H)
     else:
